@@ -33,6 +33,7 @@ import (
 	"github.com/openGemini/openGemini/coordinator"
 	"github.com/openGemini/openGemini/lib/config"
 	"github.com/openGemini/openGemini/lib/errno"
+	"github.com/openGemini/openGemini/lib/metaclient"
 	"github.com/openGemini/openGemini/lib/util"
 	"github.com/openGemini/openGemini/lib/util/lifted/influx/influxql"
 	"github.com/openGemini/openGemini/lib/util/lifted/influx/meta"
@@ -61,6 +62,7 @@ type bscenario struct {
 	times   []int64 // interesting timestamps
 	liveT   []int64 // timestamps a live group covers
 	stored  []*storedRow // rows the scenario's batches stored (not aborted), for the read-side spec
+	client  *metaclient.Client // partition mode: the real client over `data` (GetAliveShards)
 }
 
 // bmeta: the writer's view of the catalogue. Only what routeAndMapOriginRows reaches is
@@ -150,6 +152,9 @@ func genBatchScenario(r *hx.Rng, c *hx.Ctx) (*bscenario, error) {
 		c.Count("bmeta:db-level-shard-key")
 	}
 	if err := data.CreateDatabase(dbName, nil, dbKey, false, 1, nil); err != nil {
+		return nil, err
+	}
+	if _, err := data.CreateDBPtView(dbName); err != nil {
 		return nil, err
 	}
 	rp := meta.NewRetentionPolicyInfo(rpName)
@@ -302,6 +307,9 @@ func genBatchScenario(r *hx.Rng, c *hx.Ctx) (*bscenario, error) {
 		if !g.TruncatedAt.IsZero() {
 			sc.times = append(sc.times, ns(g.TruncatedAt)-1, ns(g.TruncatedAt))
 		}
+	}
+	if !anyInit && !sc.isRange && r.Chance(30) {
+		sc.ptMode(r, c)
 	}
 	for _, t := range sc.times {
 		if rpi.ShardGroupByTimestampAndEngineType(time.Unix(0, t), config.TSSTORE) != nil {
